@@ -51,7 +51,7 @@ CHECKS.update({
    text="per configuration one z3 query over a symbolic Pauli (all 4^n-1 operators lie in exactly one basis group) and per basis one query over a symbolic coefficient vector (circuit i diagonalises the whole group i); header numbers and readout-cost comparison recomputed; caller-side mutation history step",
    note="trusts z3, ztab (validated vs qiskit), the independent string parser", tech="SMT (z3) over symbolic Paulis / coefficient vectors against the real getters' output"),
  "C10": dict(engine="symrun+ztab", cat="model_checking",
-   text="the state is symbolic (all 4^n Pauli coefficients free reals); exact outcome distributions are rational linear forms derived from the returned circuits with ztab; the REAL fitter code runs on them and z3 proves (LRA validity) that every reported expectation value and density-matrix entry equals the expected form",
+   text="the state is symbolic (all 4^n Pauli coefficients free reals); exact outcome distributions are rational linear forms derived from the returned circuits with ztab; the REAL fitter code runs on them and z3 proves (LRA validity) that every reported expectation value and density-matrix entry equals the expected form; history step: a tomography with another connectivity of the same register size is evaluated first in the same interpreter",
    note="floating point abstracted to exact rationals; trusts z3, ztab, qiskit's Pauli.evolve on concrete arguments", tech="symbolic execution of the fitters on exact linear forms + z3 linear-real-arithmetic validity"),
  "C11": dict(engine="symrun+ztab", cat="model_checking",
    text="as C10 with an N-qubit symbolic state and the measured list a symbolic ordered m-subset (realised): both fitters, both modes, both call orders on one fitter object",
@@ -63,7 +63,7 @@ CHECKS.update({
    text="havoc-based inductive step on the instrumented library: op1, caller-side mutation of everything reachable (argument arrays overwritten with fresh symbolic bits), op2 with a fresh or the SAME argument object; z3 proves for all inputs of each symbolic family that op2 meets its specification, equals the result of a freshly reset library, and that arguments are unmodified. The aliasing part is structural, the solver quantifies over inputs; cross-process equality is a concrete side condition",
    note="assumes the library's cross-call state lives in module-level containers or in objects handed to the caller; induction over history length is pen-and-paper", tech="symbolic execution of call sequences with havoc; z3 obligations per path"),
  "C14": dict(engine="symrun+ztab", cat="model_checking",
-   text="every constructor branch on symbolic input: strings (characters realised by the solver), matrices and graphs with all entries symbolic, circuit branch via a slicing lemma over an arbitrary symbolic tableau plus all short gate programs / all table circuits through the real constructor; to_list on symbolic tableaux incl. both call orders",
+   text="every constructor branch on symbolic input: strings (characters realised by the solver), matrices and graphs with all entries symbolic, circuit branch via a slicing lemma over an arbitrary symbolic tableau plus all short gate programs / all table circuits through the real constructor; to_list on symbolic tableaux incl. both call orders; per gate program two look-alike circuits with composite instructions (pauli labels, appended Clifford operators) converted consecutively without reset",
    note="strings are solver-driven enumeration; qiskit's tableau trusted up to the bounded validation", tech="symbolic execution of repo source; z3 obligations; environment stub for qiskit's tableau"),
  "C15": dict(engine="symrun", cat="model_checking",
    text="is_equivalent_mod_phase / expand / is_qubit_entangled executed on symbolic valid tableaux; z3 proves agreement with definitions expanded over all coefficient vectors (n<=3 complete for equivalence, partitions of n=4; expand n<=6; entanglement n<=4/5)",
